@@ -601,7 +601,7 @@ func exec(op string) string {
 		w := d.Wire.Join()
 		return "mem=" + errStr(h.recMem.Put(name, ver, w)) + " bolt=" + errStr(h.recBolt.Put(name, ver, w))
 	case "sfill":
-		// n tiny packets <pfx>/8:<i as 2 bytes> with version ver+i (asc=1) or ver+((i*37)%n), inside one transaction per store
+		// n tiny packets <pfx>/8:<i as 2 bytes> with version ver+i (asc=1), ver (asc=2) or ver+((i*37)%n), inside one transaction per store
 		pfx := common.ParseNameText(a["pfx"])
 		n := common.Atoi(a["n"])
 		ver := common.Atou(a["ver"])
@@ -622,6 +622,8 @@ func exec(op string) string {
 				v := ver + uint64((i*37)%n)
 				if a["asc"] == "1" {
 					v = ver + uint64(i)
+				} else if a["asc"] == "2" {
+					v = ver
 				}
 				if err := st.Put(nm, v, d.Wire.Join()); err != nil {
 					r = "err"
